@@ -18,6 +18,7 @@ fn main() {
         "native" => sv::native::main(&args[2..]),
         "stack" => sv::stack::main(&args[2..]),
         "parse" => sv::parse::main(&args[2..]),
+        "prefix" => sv::prefix::main(&args[2..]),
         _ => {
             eprintln!("unknown family {fam}");
             std::process::exit(2);
